@@ -171,17 +171,22 @@ static long shape_failures;
 
 /* lean mode (huge exhaustive sweeps): no trace, only the outcome shape, the follow-up operations and the
  * environment (sanitizers, watchdog, exact-size block) */
+/* lean mode, inputs whose outcome is known by construction (nesting families, shallow big items): 1 = must be accepted, 2 = must be
+ * refused with MEMERROR (nesting beyond the limit), 0 = unknown. Anchored by the TLC-judged runs of the same families at small L. */
+static int lean_expect;
 static void lean_load(const unsigned char* in, size_t len) {
   unsigned char* blk;
   unsigned char* src = vh_exact_rot(len, &blk);
   memcpy(src, in, len);
   struct cbor_load_result res;
   memset(&res, 0xAB, sizeof res);
-  long live0 = va.live;
+  long live0 = va.live, refused0 = va.refused;
   cbor_item_t* item = cbor_load(src, len, &res);
   free(blk);
   int ok = item ? (res.error.code == CBOR_ERR_NONE && res.read >= 1 && res.read <= len)
                 : (res.error.code != CBOR_ERR_NONE && res.error.code <= CBOR_ERR_SYNTAXERROR && va.live == live0 && res.error.position <= len);
+  if (lean_expect == 1 && va.refused == refused0 && !(item && res.read == len)) ok = 0; /* (memory permitting) */
+  if (lean_expect == 2 && !(item == NULL && res.error.code == CBOR_ERR_MEMERROR)) ok = 0;
   if (item) {
     if (!opt_noops) {
       cbor_describe(item, devnull);
@@ -488,7 +493,9 @@ static void nest_family(int Lim, unsigned mask) {
           if (open1[o][1] == 2) b[n++] = 0x00;         /* value after the container key */
           if (open1[o][0] == 0x9f || open1[o][0] == 0xbf) b[n++] = 0xff;
         }
+        lean_expect = d + (inner > 0 ? 1 : 0) <= Lim ? 1 : 2;
         one_load(b, n);
+        lean_expect = 0;
         free(b);
       }
     }
@@ -614,6 +621,11 @@ static void seq_mode(long count) {
   { /* small and degenerate items followed by paddings of several lengths: nothing about x may depend on how much follows */
     static const char* edge[] = {"00", "17", "1818", "20", "40", "60", "80", "a0", "9fff", "bfff", "5fff", "7fff", "f6", "f4", "c000", "d81820", "8100", "9f00ff", "a10000", "bf0000ff",
                                  "5f40ff", "7f60ff", "8180", "9f9fffff", "c19fff", "bf009fffff", "f97c00", "fa00000000", "3a00010000", "1b0000000000000000", "5f4100ff", "829fffbfff",
+                                 /* empty strings / containers and zero in every argument width: items that end exactly where their head ends */
+                                 "5800", "590000", "5a00000000", "5b0000000000000000", "7800", "790000", "7a00000000", "7b0000000000000000",
+                                 "9800", "990000", "9a00000000", "9b0000000000000000", "b800", "b90000", "ba00000000", "bb0000000000000000",
+                                 "1800", "190000", "1a00000000", "3800", "390000", "3b0000000000000000", "d80000", "db000000000000000000", "82015b0000000000000000", "5f5b0000000000000000ff",
+                                 "f90000", "fb0000000000000000", "c0f6", "d9d9f780", "da00010000f6",
                                  /* text ending inside a multi-byte sequence: what follows the item must not complete it */
                                  "61c3", "62e282", "6361e282", "63f09f98", "62f09f", "61f0", "61e2", "7f62e282ff", "62c3a9", "8161c3", "a161c3626182"};
     static const size_t pads[] = {1, 2, 3, 4, 7, 8, 9, 10, 15, 16, 17, 40, 100};
@@ -773,7 +785,9 @@ static int real_main(int argc, char** argv) {
                 big[n++] = (unsigned char)payload; memset(big + n, 0xA5, payload); n += payload; break;   /* [1, 2(h'...')] */
         default: { size_t c = payload / 2; big[n++] = 0x9f; memset(big + n, 0x20, c); n += c; big[n++] = 0xff; break; }
       }
+      lean_expect = (kind == 5 ? 2 : 1) <= CBOR_MAX_STACK_SIZE ? 1 : 2; /* well-formed, one or two levels deep */
       one_load(big, n);
+      lean_expect = 0;
     }
     free(big);
   } else if (!strcmp(mode, "wide")) {
